@@ -19,7 +19,7 @@ RULE = ('tables 2015 and 2023 (year= as int) and the combined-events table x eve
         'grade for all spellings, grade == standard / time or mark / standard to 1e-12, grade(best) == 1.0 exactly where the '
         'factor is 1, strictly better performance => strictly higher grade; non-trivial = a non-canonical spelling, an age at a '
         'table end / first non-null column / beyond the last column, or a half-integer age; distinct (table, gender, event, age)')
-ASSUMPTIONS = ['the combined-events table carries no open bests: only the factor and spelling clauses apply to wma_athlon_*',
+ASSUMPTIONS = ['the combined-events table carries no open bests: the factor and spelling clauses and the DIRECTION of the grade (a better mark grades higher) apply to wma_athlon_*, not the grade value',
                'rows with null cells in the middle (2015 women\'s pole vault above 90) are covered up to the last non-null cell']
 RULE = RULE + '; table year also as text and left out (the three entry points must select the same table); interleaved histories include calls that raise'
 
@@ -159,6 +159,22 @@ def examine(case):
                 out.append(V('half-integer-between-neighbours', ['factor-interval-not-monotone'],
                              {'kind': 'interval', 'year': year, 'g': g, 'event': event, 'age': a}, vals))
         return out
+    if k == 'agrade':
+        age = case['age']
+        timed = is_timed(event)
+        marks = [10.0, 12.5, 17.25] if timed else [1.5, 2.05, 6.4]        # from best to worst (timed) / worst to best (field)
+        rs = [f_grade(year, g, age, event, m) for m in marks]
+        if any(r[0] == 'exc' for r in rs):
+            if f_factor(year, g, age, event)[0] == 'ret':
+                bad = [r for r in rs if r[0] == 'exc'][0]
+                out.append(V('grade-defined', ['grade-raises', bad[1], 'athlon'], dict(case), bad[:3]))
+            return out
+        vals = [r[1] for r in rs]
+        ok = all(a > b for a, b in zip(vals, vals[1:])) if timed else all(a < b for a, b in zip(vals, vals[1:]))
+        if not ok:
+            out.append(V('better-grades-higher', ['grade-monotone', 'athlon', 'timed' if timed else 'field'],
+                         dict(case, marks=marks), vals))
+        return out
     if k == 'grade':
         age = case['age']
         base = {'kind': 'grade', 'year': year, 'g': g, 'event': event, 'age': age}
@@ -265,6 +281,16 @@ def shard(ctx, payload):
         if vs:
             ctx.violations(vs)
         ctx.nontrivial((year, g, event, age), case if (age in (first, last + 20) and event in ('100', 'PV', 'MAR', 'LH')) else None)
+    if year == 'athlon':
+        # no open bests in this table, so no grade VALUE to compare - but the direction still holds: a better mark (shorter
+        # time, longer / higher jump or throw) grades strictly higher
+        for age in sorted(set([ages[0], ages[len(ages) // 2], 50, 72.5])):
+            case = {'kind': 'agrade', 'year': year, 'g': g, 'event': event, 'age': age}
+            ctx.count(3)
+            vs = examine(case)
+            if vs:
+                ctx.violations(vs)
+            ctx.label('combined-events-grade-direction')
     if year != 'athlon':
         for age in [a for a in ages if a == int(a) and a + 1 in ages][::(1 if thorough else 4)]:
             ctx.count(5)
